@@ -3,8 +3,8 @@ C03 — only justified work is re-executed.
 
 PART 1 (namespace `Qbice.CoreFw`): the extended core engine model (all five kinds, the repaired
 design; `Model/EngineCore.lean`, second half).  The `log` field of the state records every executor
-invocation.  Proved for programs WITHOUT PROJECTION NODES (`NoProj p`); the statement for all five
-kinds is `C03_exec_justified_full_statement`: there a third reason for an execution exists — a
+invocation.  Proved for programs in which NO PROJECTION READS A PROJECTION (`NoProjOverProj p`); the
+statement for all programs is `C03_exec_justified_full_statement`.  A third reason for an execution exists — a
 projection re-executed by the backward projection of a firewall / projection below it (finding
 F13's looseness: the stored value of that callee changed at some point since the projection's last
 run, or — `f1r` — its firewall set did; it need not differ from the value the projection observed).
@@ -28,40 +28,46 @@ def C03_exec_justified_full_statement : Prop :=
       query p fuel .user k { s0 with log := [] } = .ok (v, s') →
       ∀ x, x ∈ s'.log → s0.nodes x = none ∨
         (∃ n d o, s0.nodes x = some n ∧ (d, o) ∈ n.deps ∧ cur p s0 d ≠ some o) ∨
-        (∃ n f o, s0.nodes x = some n ∧ n.kind = .projection ∧ (f, o) ∈ n.deps ∧
-          (hasPending s0 f = true ∨ ∃ nf nf', s0.nodes f = some nf ∧ s'.nodes f = some nf' ∧
-            (nf'.value ≠ nf.value ∨ nf'.tfc ≠ nf.tfc)))
+        Forced { s0 with log := [] } s' x
 
 /-- "an executor is re-run only if the key was never computed or one of the dependencies it read in
     its previous run now has a different value": every key appended to the log by a successful query
     of the user either has no node in the start state, or its node recorded a dependency `(d, o)`
     whose from-scratch value on the committed inputs is no longer `o` — firewalls included: a
     firewall whose recomputation returns the stored value lets nothing above it run.
-    PARTIAL: programs without projection nodes. -/
-theorem core_exec_justified_partial {p : Program} (wf : WF p) (np : NoProj p) {s : St} (inv : Inv p s)
+    PARTIAL: programs without a projection over a projection. -/
+theorem core_exec_justified_partial {p : Program} (wf : WF p) (pf : NoProjOverProj p) {s : St} (inv : Inv p s)
     {k fuel : Nat} (hk : k < fuel) {v : Val} {s' : St} (h : query p fuel .user k s = .ok (v, s')) :
     ∃ new, s'.log = s.log ++ new ∧
       ∀ x, x ∈ new → s.nodes x = none ∨
-        ∃ n d o, s.nodes x = some n ∧ (d, o) ∈ n.deps ∧ cur p s d ≠ some o := by
-  obtain ⟨_, f, _⟩ := (query_spec wf np hk inv).ok h
+        (∃ n d o, s.nodes x = some n ∧ (d, o) ∈ n.deps ∧ cur p s d ≠ some o) ∨ Forced s s' x := by
+  obtain ⟨_, f, _⟩ := (query_spec wf pf hk inv).ok h
   obtain ⟨new, h1, _, h3, _⟩ := f.log
-  exact ⟨new, h1, fun x hx => (h3 x hx).1.2⟩
+  refine ⟨new, h1, fun x hx => ?_⟩
+  rcases (h3 x hx).1 with hj | hf
+  · rcases hj.2 with h0 | h0
+    · exact Or.inl h0
+    · exact Or.inr (Or.inl h0)
+  · exact Or.inr (Or.inr hf)
 
 /-- "at most one execution per key between two input sessions": the keys executed by a query are
     pairwise distinct, none of them was verified in the current epoch before, and all of them are
-    verified afterwards.  PARTIAL: programs without projection nodes. -/
-theorem core_exec_once_partial {p : Program} (wf : WF p) (np : NoProj p) {s : St} (inv : Inv p s)
+    verified afterwards.  PARTIAL: programs without a projection over a projection. -/
+theorem core_exec_once_partial {p : Program} (wf : WF p) (pf : NoProjOverProj p) {s : St} (inv : Inv p s)
     {k fuel : Nat} (hk : k < fuel) {v : Val} {s' : St} (h : query p fuel .user k s = .ok (v, s')) :
     ∃ new, s'.log = s.log ++ new ∧ new.Nodup ∧
       ∀ x, x ∈ new → (¬ ∃ n, s.nodes x = some n ∧ n.lastVerified = s.epoch) ∧
         ∃ n', s'.nodes x = some n' ∧ n'.lastVerified = s'.epoch := by
-  obtain ⟨_, f, _⟩ := (query_spec wf np hk inv).ok h
+  obtain ⟨_, f, _⟩ := (query_spec wf pf hk inv).ok h
   obtain ⟨new, h1, h2, h3, _⟩ := f.log
-  exact ⟨new, h1, h2, fun x hx => ⟨(h3 x hx).1.1, (h3 x hx).2⟩⟩
+  refine ⟨new, h1, h2, fun x hx => ⟨?_, (h3 x hx).2⟩⟩
+  rcases (h3 x hx).1 with h | h
+  · exact h.1
+  · exact h.1
 
 /-- "an external-input executor runs on first demand and under `refresh`, never otherwise".
-    PARTIAL (first half): programs without projection nodes. -/
-theorem core_external_only_on_demand_or_refresh_partial {p : Program} (wf : WF p) (np : NoProj p)
+    PARTIAL (first half): programs without a projection over a projection. -/
+theorem core_external_only_on_demand_or_refresh_partial {p : Program} (wf : WF p) (pf : NoProjOverProj p)
     {s : St} (inv : Inv p s) :
     (∀ {k fuel : Nat}, k < fuel → ∀ {v : Val} {s' : St}, query p fuel .user k s = .ok (v, s') →
       ∃ new, s'.log = s.log ++ new ∧
@@ -71,16 +77,21 @@ theorem core_external_only_on_demand_or_refresh_partial {p : Program} (wf : WF p
         ∀ x, x ∈ new → Write.refresh ∈ ws ∧ ∃ n, s.nodes x = some n ∧ n.kind = .external) := by
   refine ⟨?_, ?_⟩
   · intro k fuel hk v s' h
-    obtain ⟨_, f, _⟩ := (query_spec wf np hk inv).ok h
+    obtain ⟨_, f, _⟩ := (query_spec wf pf hk inv).ok h
     obtain ⟨new, h1, _, h3, _⟩ := f.log
     refine ⟨new, h1, ?_⟩
     intro x d hx hp hd
-    rcases (h3 x hx).1.2 with h0 | ⟨n, dd, o, hn, hm, _⟩
-    · exact h0
-    · obtain ⟨d', hp', hk', hleaf⟩ := inv.kind x n hn
+    have noDeps : ∀ n dd o, s.nodes x = some n → (dd, o) ∈ n.deps → False := by
+      intro n dd o hn hm
+      obtain ⟨d', hp', hk', hleaf⟩ := inv.kind x n hn
       rw [hp] at hp'; cases hp'
       rw [(hleaf (Or.inr (by rw [← hk', hd]))).1] at hm
       cases hm
+    rcases (h3 x hx).1 with hj | ⟨_, n, fk, o, hn, _, hm, _⟩
+    · rcases hj.2 with h0 | ⟨n, dd, o, hn, hm, _⟩
+      · exact h0
+      · exact (noDeps n dd o hn hm).elim
+    · exact (noDeps n fk o hn hm).elim
   · intro ws rs s' h
     obtain ⟨_, _, _, _, _, _, hl⟩ := session_spec inv h
     exact hl
@@ -97,23 +108,30 @@ theorem core_refresh_reexecutes_all_externals {p : Program} {s : St} {rs : List 
 /-- non-vacuity: the firewall diamond after a session that the firewall absorbs: only the firewall
     runs (justified by its changed input), nothing above it; after a session that changes it,
     everything above runs -/
-example : WF exF ∧ NoProj exF ∧ Inv exF exFS ∧ Inv exF exFU ∧
+example : WF exF ∧ NoProjOverProj exF ∧ Inv exF exFS ∧ Inv exF exFU ∧
     (query exF (fuelFor exF) .user 5 { exFS with log := [] }).toOption.map (·.2.log) = some [2] ∧
     (query exF (fuelFor exF) .user 5 { exFU with log := [] }).toOption.map (·.2.log) = some [2, 3, 4, 5] :=
-  ⟨exF_wf, exF_noProj, exFS_inv, exFU_inv, by decide, by decide⟩
+  ⟨exF_wf, exF_noProj.over, exFS_inv, exFU_inv, by decide, by decide⟩
 
 /-- the same over any number of rounds run within one epoch: all executions are of distinct keys
     and each is justified with respect to the state before the first round.
-    PARTIAL: programs without projection nodes. -/
-theorem core_rounds_exec_once_partial {p : Program} (wf : WF p) (np : NoProj p) {s : St} (inv : Inv p s)
+    PARTIAL: programs without a projection over a projection. -/
+theorem core_rounds_exec_once_partial {p : Program} (wf : WF p) (pf : NoProjOverProj p) {s : St} (inv : Inv p s)
     {kss : List (List Key)} {outs : List (List Val)} {s' : St}
     (h : runRounds p kss s = .ok (outs, s')) :
     ∃ new, s'.log = s.log ++ new ∧ new.Nodup ∧
       ∀ x, x ∈ new → (¬ ∃ n, s.nodes x = some n ∧ n.lastVerified = s.epoch) ∧
-        (s.nodes x = none ∨ ∃ n d o, s.nodes x = some n ∧ (d, o) ∈ n.deps ∧ cur p s d ≠ some o) := by
-  obtain ⟨_, _, f⟩ := (runRounds_spec wf np kss s inv).ok h
+        (s.nodes x = none ∨ (∃ n d o, s.nodes x = some n ∧ (d, o) ∈ n.deps ∧ cur p s d ≠ some o) ∨
+          Forced s s' x) := by
+  obtain ⟨_, _, f⟩ := (runRounds_spec wf pf kss s inv).ok h
   obtain ⟨new, h1, h2, h3, _⟩ := f.log
-  exact ⟨new, h1, h2, fun x hx => (h3 x hx).1⟩
+  refine ⟨new, h1, h2, fun x hx => ?_⟩
+  rcases (h3 x hx).1 with hj | hf
+  · refine ⟨hj.1, ?_⟩
+    rcases hj.2 with h0 | h0
+    · exact Or.inl h0
+    · exact Or.inr (Or.inl h0)
+  · exact ⟨hf.1, Or.inr (Or.inr hf)⟩
 
 example : Inv exF exFU ∧
     (runRounds exF [[5, 4], [3, 5, 5]] { exFU with log := [] }).toOption.map (·.2.log) = some [2, 3, 4, 5] :=
